@@ -49,6 +49,10 @@ func runC04(c *Ctx) {
 	hyperListOwnership(c, "R10")
 	readerBufferDiscipline(c, "R11", []string{"balloon", "balloon/hyper", "balloon/history", "balloon/cache"})
 	hyperLoaderErrors(c, "R12")
+	c.Rule("R13", "hyper insert: no leaf of a bulk is dropped, the persisted batch holds the new shortcut, a repeated key keeps its first value", 4)
+	hyperLeafConservation(c, "R13")
+	hyperShortcutPersist(c, "R13")
+	hyperInsertSortedDuplicates(c, "R13")
 }
 
 // ---- R2 ---------------------------------------------------------------------
